@@ -2,6 +2,7 @@
 import os
 import re
 
+from . import ambient as ambient_mod
 from . import core
 from .decomp import decompose
 
@@ -12,11 +13,11 @@ class FileOutcome:
 
 
 class Outcome:
-    __slots__ = ("check", "edit", "files", "lock_before", "lock_after", "changed_other", "snap_before", "snap_after")
+    __slots__ = ("check", "edit", "files", "lock_before", "lock_after", "changed_other", "snap_before", "snap_after", "ambient_changed", "amb")
 
 
 def run_tree(built, box, files, config_yaml, do_check=True, do_edit=True, trace=True, lock=None, shim=False,
-             config_rel="Breadlog.yaml", timeout=120):
+             config_rel="Breadlog.yaml", timeout=120, ambient=None):
     """files: rel -> bytes (below proj). Runs --check then edit on the same tree (check does not modify: C04).
 
     Returns Outcome with per-file reported offsets (from check) and tokens (from edit).
@@ -28,8 +29,12 @@ def run_tree(built, box, files, config_yaml, do_check=True, do_edit=True, trace=
     if lock is not None:
         with open(lockp, "w") as f:
             f.write(lock)
+    if ambient:
+        ambient_mod.apply(box.proj, ambient, lock_dir=os.path.dirname(cfg))
     out = Outcome()
     out.files = {}
+    out.ambient_changed = []
+    out.amb = ambient or {"kind": "plain", "stale_lock_tmp": None}
     out.check = out.edit = None
     for rel, data in files.items():
         fo = FileOutcome()
@@ -93,6 +98,8 @@ def run_tree(built, box, files, config_yaml, do_check=True, do_edit=True, trace=
                 if rel is not None and "Insert" in t["pass"]:
                     out.files[rel].trace_edit = t["entries"]
     out.lock_after = core.read_lock(lockp)
+    if ambient:
+        out.ambient_changed = ambient_mod.siblings_changed(box.proj, ambient)
     return out
 
 
